@@ -1049,6 +1049,92 @@ def execute(hists, entries, syms, binary, tag='c06'):
     return impl, model, err
 
 
+def gen_inner(tier, rng):
+    """Wrappers for bytecode.GetInnerFunc: filler instructions, CALLs forward / backward out of the wrapper / backward inside it,
+    padding and the next function's prologue; every sequence ends in padding followed by code."""
+    ops = []
+    for _ in range(300 if tier == 'quick' else 6000):
+        toks, cur = [], 0
+        for _ in range(rng.below(14)):
+            r = rng.below(10)
+            if r < 6:
+                n = 1 + rng.below(8)
+                toks.append(f'n{n}')
+                cur += n
+            elif r == 6:
+                toks.append(f'c{-rng.below(cur + 1)}' if cur else 'n1')      # backward, stays inside the wrapper
+                cur += 5 if toks[-1][0] == 'c' else 1
+            elif r == 7:
+                toks.append(f'c{rng.below(1 << rng.below(24))}')               # forward
+                cur += 5
+            elif r == 8:
+                toks.append(f'c{-(cur + 1 + rng.below(1 << rng.below(24)))}')  # backward, in front of the wrapper
+                cur += 5
+            elif toks:
+                toks.append(rng.choice(['i', 'p']))
+                cur += 1
+        ops.append('c06.inner ' + ' '.join(toks + ['i', 'n1']))
+    return list(dict.fromkeys(ops))
+
+
+def inner_expect(op):
+    """first CALL that leaves the wrapper, before any padding / next prologue"""
+    cur, pad = 0, False
+    for t in op.split()[1:]:
+        if t == 'p':
+            return 'inner=none'
+        if t == 'i':
+            pad, cur = True, cur + 1
+            continue
+        if pad:
+            return 'inner=none'
+        if t[0] == 'n':
+            cur += int(t[1:])
+        else:
+            rel = int(t[1:])
+            if rel >= 0 or cur + rel < 0:
+                return f'inner={cur + rel + 5}'
+            cur += 5
+    return 'inner=none'
+
+
+def run_inner(tier, rng, out):
+    ops = gen_inner(tier, rng)
+    if len(ops) < 50:
+        raise C.Infra('C06 inner-function lane generated nothing')
+    b, err = C.overlay_build('c06-inner', 'internal/bytecode', {'zz_verif_c06_test.go': os.path.join(C.HARNESS, 'c06', 'inner_probe_test.go')},
+                             C.helper_pkgs())
+    if b is None:
+        raise C.Infra('C06 inner-function probe does not build against the current tree:\n' + err[-3000:])
+    ops_path = os.path.join(C.BUILD, 'c06-inner.ops')
+    open(ops_path, 'w').write('\n'.join(ops) + '\n')
+    outp = os.path.join(C.BUILD, 'c06-inner.impl')
+    rc, log = C.run_probe(b, 'TestVerifC06Inner', ops_path, outp, env=PROBE_ENV, timeout=PROBE_TIMEOUT)
+    impl = C.read_indexed(outp, len(ops))
+    if rc != 0 or any(x is None for x in impl):
+        rc, log = C.run_probe(b, 'TestVerifC06Inner', ops_path, outp, env=PROBE_ENV, timeout=PROBE_TIMEOUT)     # once more before saying anything
+        impl = C.read_indexed(outp, len(ops))
+        if rc != 0 or any(x is None for x in impl):
+            i = next((j for j, x in enumerate(impl) if x is None), 0)
+            out.violation(f'GetInnerFunc crashed or did not answer on `{ops[i]}`', {'kind': 'inner', 'ops': [ops[i]], 'log': log[-1500:]})
+            return {'inner_wrappers': len(ops), 'inner_ok': 0}
+    exe, derr = C.build_driver()
+    model = C.run_driver(exe, ops_path, os.path.join(C.BUILD, 'c06-inner.model')) if exe else None
+    shown = 0
+    for i, op in enumerate(ops):
+        want = inner_expect(op)
+        if impl[i] != want and shown < 2:
+            shown += 1
+            out.violation(f'GetInnerFunc on `{op}`: {impl[i]}, but the first CALL that leaves the wrapper gives {want}',
+                          {'kind': 'inner', 'ops': [op], 'observed': impl[i], 'expected': want})
+        elif model is not None and model[i] != impl[i] and shown < 2:
+            shown += 1
+            out.violation(f'model and GetInnerFunc disagree on `{op}`', {'kind': 'inner-correspondence', 'ops': [op], 'impl': impl[i], 'model': model[i]},
+                          no_failing_input=True)
+    kinds = collections.Counter('none' if x == 'inner=none' else ('forward' if not x[6:].startswith('-') else 'backward') for x in impl)
+    return {'inner_wrappers': len(ops), 'inner_results': dict(kinds)}
+
+
 def spec_check(entries, syms):
     """Model validation: the linker-name SPEC against the real symbol table."""
     ss = set(syms)
@@ -1115,6 +1201,7 @@ def run(tier):
             out.violation('proof obligations of Props/C06.lean no longer check and no failing input was found in the search',
                           {'kind': 'proof', 'broken': proof['failed'], 'searched': len(hists), 'output': proof.get('output', '')[-3000:]},
                           no_failing_input=True)
+    inner_stats = run_inner(tier, rng.fork('inner'), out)
     lane_count = collections.Counter(l for l, _ in lanes)
     res_classes = collections.Counter()
     nontrivial = set()
@@ -1143,7 +1230,7 @@ def run(tier):
                 'replaced, distinct by (steps, set of replaced methods with callback numbers)',
         'distribution': {'types': ntypes, 'declared_methods': len(entries), 'methods_replaced_at_least_once': len(mocked_entries),
                          'calls_per_evaluation': len(entries) * 9, 'symbols_in_table': len(syms), 'symbols_dropped_unprintable': dropped,
-                         'lanes': dict(lane_count), 'step_results': dict(res_classes), 'oracle_notes': dict(notes),
+                         'lanes': dict(lane_count), 'GetInnerFunc_lane': inner_stats, 'step_results': dict(res_classes), 'oracle_notes': dict(notes),
                          'generic_instantiations': len({e['T'] for e in entries if e['generic']}),
                          'pointer_receiver_methods': sum(1 for e in entries if e['ptr']), 'value_receiver_methods': sum(1 for e in entries if not e['ptr']),
                          'unexported_methods': sum(1 for e in entries if not e['m'][0].isupper()),
@@ -1160,6 +1247,21 @@ def run(tier):
 
 
 def replay(body):
+    if body.get('kind', '').startswith('inner'):
+        out = C.Outcome('C06', 'replay')
+        ops = body['ops']
+        b, err = C.overlay_build('c06-inner', 'internal/bytecode', {'zz_verif_c06_test.go': os.path.join(C.HARNESS, 'c06', 'inner_probe_test.go')},
+                                 C.helper_pkgs())
+        ops_path = os.path.join(C.BUILD, 'c06-inner-replay.ops')
+        open(ops_path, 'w').write('\n'.join(ops) + '\n')
+        outp = os.path.join(C.BUILD, 'c06-inner-replay.impl')
+        C.run_probe(b, 'TestVerifC06Inner', ops_path, outp, env=PROBE_ENV)
+        impl = C.read_indexed(outp, len(ops))
+        rc = 0
+        for i, op in enumerate(ops):
+            print(f'{op}\n  impl: {impl[i]}\n  expected: {inner_expect(op)}')
+            rc |= impl[i] != inner_expect(op)
+        return int(rc)
     tier = body.get('tier', 'quick')
     os.environ['VERIF_SEED'] = str(body.get('corpus_seed', C.seed()))
     rng = C.Rng(C.seed()).fork('C06')
